@@ -261,7 +261,12 @@ func canonDirUses(s *model.Schema, uses []model.DirUse, o CanonOpts) string {
 			}
 			if t != nil {
 				if a.Value == nil {
-					continue // a null argument and an absent one denote the same use
+					// null for an argument without default is what "absent" means (ggql writes the absent
+					// argument of a known directive as null); null for an argument WITH a default is an explicit null
+					if ad := dirArgOf(dd, a.Name); ad != nil && ad.HasDefault && ad.Default != nil {
+						vals[a.Name] = "null"
+					}
+					continue
 				}
 				vals[a.Name] = canonValue(s, t, a.Value)
 			} else {
@@ -294,6 +299,13 @@ func canonDirUses(s *model.Schema, uses []model.DirUse, o CanonOpts) string {
 	}
 	sort.Strings(parts)
 	return strings.Join(parts, " ")
+}
+
+func dirArgOf(d *model.DirDef, n string) *model.ArgDef {
+	if d == nil {
+		return nil
+	}
+	return dirArg(d, n)
 }
 
 func dirArg(d *model.DirDef, n string) *model.ArgDef {
